@@ -20,7 +20,7 @@ RULE = (
     "executed with and without pruning; distinct = distinct class / graph / run; non-trivial = graph with a non-identity "
     "automorphism or >=4 nodes; reactor run with >=2 raw matches"
 )
-REQUIRED = ["automorphism_count_checked", "orbits_checked", "nontrivial_groups", "disconnected_graphs",
+REQUIRED = ["large_group_checked", "automorphism_count_checked", "orbits_checked", "nontrivial_groups", "disconnected_graphs",
             "autoest_coarsening_checked", "autoest_strictly_coarser", "dedup_contract_evals", "dedup_dropped_something",
             "pruning_differential_runs", "pruning_removed_matches", "pruning_symmetry_reference_checked", "graphs_with_omitted_default_attributes", "anchor_read_first_checked", "empty_key_list_matters"]
 ASSUMPTIONS = [
@@ -190,6 +190,70 @@ def check_dedup_direct(ctx):
     flush(ctx)
 
 
+def large_group_families():
+    """graphs whose automorphism group is larger than any enumeration cut-off one might pick (> 4096 elements), with the
+    exact group order and orbits known in closed form (stars: n!, complete graphs: n!, neopentane with explicit H:
+    4! * 3!^4, disjoint unions: product of the parts when the parts are not isomorphic)."""
+    import math
+
+    def mk(g, elements=None):
+        g = nx.convert_node_labels_to_integers(g, first_label=1)
+        G = nx.Graph()
+        for v in g.nodes:
+            G.add_node(v, element=(elements or {}).get(v, "C"), hcount=0, charge=0, aromatic=False, atom_map=v, neighbors=[])
+        for u, v in g.edges:
+            G.add_edge(u, v, order=1, standard_order=0.0)
+        return G
+
+    out = {}
+    for n in (7, 8):
+        G = mk(nx.star_graph(n))          # node 1 = centre after relabelling
+        out[f"star K1,{n}"] = (G, math.factorial(n), [{1}, set(range(2, n + 2))])
+    G = mk(nx.complete_graph(7))
+    out["K7"] = (G, math.factorial(7), [set(range(1, 8))])
+    # neopentane, hydrogens as atoms: centre 1, carbons 2..5, hydrogens 6..17
+    g = nx.Graph()
+    g.add_edges_from((1, c) for c in range(2, 6))
+    h = 6
+    for c in range(2, 6):
+        for _ in range(3):
+            g.add_edge(c, h)
+            h += 1
+    G = nx.Graph()
+    for v in sorted(g.nodes):
+        G.add_node(v, element="H" if v >= 6 else "C", hcount=0, charge=0, aromatic=False, atom_map=v, neighbors=[])
+    for u, v in g.edges:
+        G.add_edge(u, v, order=1, standard_order=0.0)
+    out["neopentane with explicit H"] = (G, 24 * 6 ** 4, [{1}, {2, 3, 4, 5}, set(range(6, 18))])
+    G = mk(nx.disjoint_union(nx.star_graph(7), nx.path_graph(2)))
+    out["star K1,7 + C-C"] = (G, math.factorial(7) * 2, [{1}, set(range(2, 9)), {9, 10}])
+    return out
+
+
+def check_large_group(ctx, name, G, want_n, want_orb):
+    from synkit.Graph.Matcher.automorphism import Automorphism
+
+    G2, mp = WG.scramble(G, ctx.rng)
+    fwd = None
+    if isinstance(mp, dict):
+        fwd = mp
+    if fwd is None or set(fwd) != set(G.nodes):
+        # scramble() did not hand back an old->new map: recover one from atom_map-free structure is not possible in
+        # general, so fall back to the unscrambled presentation
+        G2, fwd = G, {v: v for v in G.nodes}
+    want = {frozenset(fwd[v] for v in o) for o in want_orb}
+    wit = {"graph": WG.describe(G2), "family": name}
+    for kw in ({}, {"anchor_largest_component": False}):
+        A = Automorphism(G2, **kw)
+        ctx.count("large_group_checked")
+        if A.n_automorphisms != want_n:
+            ctx.violation("automorphism-count", wit, f"{name}: Automorphism({kw}).n_automorphisms={A.n_automorphisms}, the group has {want_n} elements (closed form)")
+        got = {frozenset(o) for o in A.orbits}
+        if got != want or len(got) != len(A.orbits):
+            ctx.violation("orbits", wit, f"{name}: orbits {sorted(map(sorted, got))} != exact {sorted(map(sorted, want))}")
+    ctx.case(("large-group", name), nontrivial=True, sample={"space": "large-group families (closed-form group order)", "family": name, "group_order": want_n})
+
+
 def run(ctx):
     install()
     from checks import reactor_common as _RC
@@ -224,6 +288,9 @@ def run(ctx):
         if ctx.mine(t) and G.number_of_nodes() <= (9 if ctx.quick else 12):
             G2, _ = WG.scramble(G, rng)
             check_graph(ctx, G2, "symmetric family " + name, ("fam", name))
+    for t, (name, (G, wn, wo)) in enumerate(large_group_families().items()):
+        if ctx.mine(t + 3) and (wn <= 10080 or not ctx.quick or name.startswith("neopentane")):
+            check_large_group(ctx, name, G, wn, wo)
     n = 200 if ctx.quick else 5000
     for t in range(n):
         if ctx.out_of_time(0.4):
